@@ -737,6 +737,26 @@ def dedup_sites(sym):
     return ('SiteFalseLeft' if a_ok else 'SiteOther'), ('SiteRightTrue' if e_ok else 'SiteOther')
 
 
+def operand_order(sym):
+    """Comparator.get_first_second_operands: the RIGHT operand is enumerated first iff one of its variables is bound by the incoming
+    row (EvalPure.bound_in / the CCmp case of EvalPure.eval transcribe exactly this).  Pinned body."""
+    ref = """
+def f(self, sources):
+    if sources and any(v.value._var_._id_ in sources for v in self.right._unique_variables_):
+        return self.right, self.left
+    else:
+        return self.left, self.right
+"""
+    fn = method(find(sym, ast.ClassDef, 'Comparator'), 'get_first_second_operands')
+    need([ast.dump(x) for x in body_wo_doc(fn)] == [ast.dump(x) for x in ast.parse(ref).body[0].body],
+         'Comparator.get_first_second_operands: not `right operand first iff one of its variables is bound`')
+    ev = method(find(sym, ast.ClassDef, 'Comparator'), '_evaluate__')
+    src = ast.dump(ev)
+    need(ast.dump(ast.parse("first_operand, second_operand = self.get_first_second_operands(sources)").body[0]) in [ast.dump(x) for x in ast.walk(ev) if isinstance(x, ast.Assign)],
+         'Comparator._evaluate__: the operand order is not taken from get_first_second_operands(sources)')
+    return True
+
+
 def rule_builders(rule):
     """rule.refinement / rule.alternative_or_next: how the new operator is wrapped around the current node and linked into the
     operator above it.  Recognised shapes only; anything else is refused."""
@@ -863,6 +883,7 @@ def emit(d):
     ds = dedup_site(sym, parse(os.path.join(d, 'cache_data.py')))
     rd = reset_discipline(sym)
     dsites = dedup_sites(sym)
+    oo = operand_order(sym)
     o = []
     o.append("(* Generated.v — REGENERATED ON EVERY RUN by translator/eql2coq.py from /repo's current source. Do not edit. *)")
     o.append("From EQL Require Import Base Values.\n")
@@ -961,6 +982,8 @@ def emit(d):
     o.append("")
     o.append("(* SymbolicExpression._is_duplicate_output_, SeenSet.add, SeenSet.check have the statements Dedup.dup_check transcribes (pinned) *)")
     o.append(f"Definition dedup_site_as_modelled : bool := {'true' if ds else 'false'}.")
+    o.append("(* Comparator.get_first_second_operands: the right operand is enumerated first iff one of its variables is bound (pinned) *)")
+    o.append(f"Definition comparator_right_first_iff_bound : bool := {'true' if oo else 'false'}.")
     o.append("(* where AND / ElseIf apply the duplicate check: to a FALSE left row that is passed up / to a TRUE row of the right side *)")
     o.append("Inductive dsite := SiteFalseLeft | SiteRightTrue | SiteOther.")
     o.append(f"Definition and_dedup_site : dsite := {dsites[0]}.")
